@@ -237,7 +237,14 @@ func (encryptor *HashQuery) replaceValuesWithHMACs(ctx context.Context, values [
 	newValues := make([]base.BoundValue, len(values))
 	copy(newValues, values)
 
+	// newValues shares its elements with values: a value must be replaced once, even when the statement uses
+	// its placeholder in several comparisons (otherwise the replacement itself would be processed again)
+	replaced := make(map[int]struct{}, len(placeholders))
 	for _, valueIndex := range placeholders {
+		if _, done := replaced[valueIndex]; done {
+			continue
+		}
+		replaced[valueIndex] = struct{}{}
 		var encryptionSetting config.ColumnEncryptionSetting = nil
 		if bindData != nil {
 			setting, ok := bindData[valueIndex]
